@@ -34,7 +34,7 @@ theorem ratio_of_atPrev (P : Params K) (items : List (Item K)) (lineW : K) (tol 
 /-- a node whose least line length to the current break does not exceed the line width survives `mainLoop` -/
 theorem keep_step (P : Params K) (items : List (Item K)) (lineW : K) (tol : Option K) (b : Nat)
     (it : Item K) (rest : List (Item K)) (lb : LB K) (n : Node K) (prev : Option Nat)
-    (hinf : 0 < P.infinity) (hlw : 0 < lineW)
+    (hinf : 0 < P.infinity) (hlw : 0 < lineW) (heps : 0 ≤ P.eps)
     (hs : (lb.W, lb.Y, lb.Z) = pre items b) (hn : n ∈ lb.act) (hat : AtPrev P items n prev)
     (hnf : isForced P it = false)
     (hY : (afterSums P items prev).2.1 ≤ (pre items b).2.1) (hZ : (afterSums P items prev).2.2 ≤ (pre items b).2.2)
@@ -61,7 +61,7 @@ theorem keep_step (P : Params K) (items : List (Item K)) (lineW : K) (tol : Opti
   | true =>
     exfalso
     have := deact_imp (mlCx P items lineW tol b it lb) n hnf (by simp only [mlCx]; rw [hy, hY']; exact hY)
-      (by simp only [mlCx]; rw [hz, hZ']; exact hZ) hinf hlw
+      (by simp only [mlCx]; rw [hz, hZ']; exact hZ) hinf hlw heps
       (by simp only [mlCx]; rw [hW, hY', hZ', hw, hy, hz]; exact hsn) hd
     simp only [mlCx] at this
     rw [hW, hZ', hw, hz] at this
@@ -253,7 +253,7 @@ theorem passLoop_opt (P : Params K) (items : List (Item K)) (lineW : K) (hwf : W
                           fun a ha => ⟨Nat.lt_trans (hprev a ha).1 hxb, (hprev a ha).2⟩
                         obtain ⟨hyb, hzb⟩ := afterSums_le P items lineW hwf prev b hpb hleg
                         obtain ⟨hyx, hzx⟩ := afterSums_le P items lineW hwf prev x hpx hlegx
-                        apply keep_step P items lineW tol b it rest lb0 n prev hwf.inf hwf.lw hIc.sums hn0 hat hnf hyb hzb
+                        apply keep_step P items lineW tol b it rest lb0 n prev hwf.inf hwf.lw hwf.epsNonneg hIc.sums hn0 hat hnf hyb hzb
                           (hwf.snap prev b it hit (fun a ha => legalAt_lt (hprev a ha).2))
                         intro h1
                         obtain ⟨_, _, _, hmono⟩ := pre_mono items hwf.itemsOK b (x - b)
